@@ -27,7 +27,7 @@ def arg_expr(ty, k, enums, masks, implicit=False):
     if t == "implIntoIterator<Item=spirv::Word>" or t == "implIntoIterator<Item=u32>":
         return "vec![%du32, %du32]" % (100 + k, 200 + k)
     if t in ("implAsRef<[u32]>", "implAsRef<[spirv::Word]>"):
-        return "vec![%du32]" % (100 + k)
+        return "slice_arg(%du32)" % (100 + k)
     if t == "implInto<String>":
         return '"s%d"' % k
     if t == "Option<implInto<String>>" or t == "Option<implInto<String>>,":
@@ -117,6 +117,11 @@ fn ip() -> rspirv::dr::InsertPoint {
         3 => rspirv::dr::InsertPoint::FromEnd(0),
         _ => rspirv::dr::InsertPoint::End,
     }
+}
+
+/// slice arguments: one word normally; with insertion-point selector 7 ("duplicates") two equal words that also equal the id arguments' pattern
+fn slice_arg(w: u32) -> Vec<u32> {
+    if IP.load(std::sync::atomic::Ordering::SeqCst) == 7 { vec![w, w, 101u32] } else { vec![w] }
 }
 
 fn setup(state: u32) -> rspirv::dr::Builder {
